@@ -2,8 +2,7 @@
 Model of `lef21::read::LefLexer`: a character-level lexer with one character of look-ahead.
 The source is a list of characters; positions are BYTE offsets (sums of `Char.utf8Size`), because
 the code slices the source string with them (`Token::substr`, `lex_number`, error reports).
-Unicode classification (`char::is_whitespace`, `char::is_alphabetic`) enters through the
-parameters `isWs`, `isAlpha`; the position theorems hold for every such classification.
+Unicode classification (`char::is_whitespace`) enters through the parameter `isWs`; the position theorems hold for every such classification.
 -/
 namespace L21.LefLex
 
@@ -61,46 +60,42 @@ def isNumberText (cs : List Char) : Bool :=
   mantOk && expOk
 
 /-- the lexer: `pos` = byte offset of the first character of `src`; fuel = remaining characters + 1 -/
-def lexFrom (isWs isAlpha : Char → Bool) : Nat → Nat → List Char → Out (List Tok)
+def lexFrom (isWs : Char → Bool) : Nat → Nat → List Char → Out (List Tok)
   | 0, _, _ => .err
   | _, _, [] => .ok []
   | fuel + 1, pos, c :: rest =>
     if c == '\n' || isWs c then
       -- newline, or a run of ASCII non-newline whitespace after the first whitespace character
       let run := if c == '\n' then ([], rest) else spanP (fun d => isAsciiWs d && d != '\n') rest
-      lexFrom isWs isAlpha fuel (pos + c.utf8Size + bytes run.1) run.2
+      lexFrom isWs fuel (pos + c.utf8Size + bytes run.1) run.2
     else if c == ';' then
-      match lexFrom isWs isAlpha fuel (pos + 1) rest with
+      match lexFrom isWs fuel (pos + 1) rest with
       | .ok ts => .ok (⟨.semi, pos, pos + 1⟩ :: ts)
       | .err => .err
     else if c == '"' then
       let (body, after) := spanP (fun d => d != '"') rest
       let (closing, rest') := match after with | q :: r => ([q], r) | [] => ([], [])
       let stop := pos + 1 + bytes body + bytes closing
-      match lexFrom isWs isAlpha fuel stop rest' with
+      match lexFrom isWs fuel stop rest' with
       | .ok ts => .ok (⟨.string, pos, stop⟩ :: ts)
       | .err => .err
     else if c == '#' then
       let (body, after) := spanP (fun d => d != '\n') rest
-      lexFrom isWs isAlpha fuel (pos + 1 + bytes body) after
-    else if isDigit c || c == '.' || c == '-' then
+      lexFrom isWs fuel (pos + 1 + bytes body) after
+    else if isDigit c || c == '.' || c == '-' || c == '+' then
       let (body, after) := spanP (fun d => !isWs d) rest
       let stop := pos + c.utf8Size + bytes body
-      match lexFrom isWs isAlpha fuel stop after with
+      match lexFrom isWs fuel stop after with
       | .ok ts => .ok (⟨if isNumberText (c :: body) then .number else .name, pos, stop⟩ :: ts)
       | .err => .err
-    else if isAlpha c then
+    else
+      -- every other character starts a name (since fix 1ed083c; it was `is_alphabetic` only)
       let (body, after) := spanP (fun d => !isWs d) rest
       let stop := pos + c.utf8Size + bytes body
-      match lexFrom isWs isAlpha fuel stop after with
+      match lexFrom isWs fuel stop after with
       | .ok ts => .ok (⟨.name, pos, stop⟩ :: ts)
       | .err => .err
-    else .err
 
-def lex (isWs isAlpha : Char → Bool) (src : List Char) : Out (List Tok) := lexFrom isWs isAlpha (src.length + 1) 0 src
-
-/-- `is_alphabetic` on ASCII and on the non-ASCII characters the harness uses -/
-def isAlphaApprox (c : Char) : Bool :=
-  c.isAlpha || c == 'é' || c == 'ß' || c == '中' || c == 'É' || c == 'µ'
+def lex (isWs : Char → Bool) (src : List Char) : Out (List Tok) := lexFrom isWs (src.length + 1) 0 src
 
 end L21.LefLex
